@@ -791,15 +791,17 @@ class HeadersDictProxy(Mapping[str, str]):
     def __iter__(self) -> Iterator[str]:
         # We need to deduplicate keys from MultiDict
         # But, we also need to retain ordering
+        # (field names are case-insensitive, like the lookup)
         seen = set()
         for k in self._md.__iter__():
-            if k in seen:
+            name = k.lower()
+            if name in seen:
                 continue
-            seen.add(k)
+            seen.add(name)
             yield k
 
     def __len__(self) -> int:
-        return len(set(self._md.keys()))
+        return len({k.lower() for k in self._md.keys()})
 
     def __repr__(self) -> str:
         body = ", ".join(f"'{k}': {v!r}" for k, v in self.items())
